@@ -13,7 +13,8 @@ import vlib
 if hasattr(sys, "set_int_max_str_digits"):
     sys.set_int_max_str_digits(0)          # "1e9000" is a legitimate (out of range) text
 
-NUM = re.compile(r"^([+-]?)(\d*)(?:\.(\d*))?(?:[eE]([+-]?)(\d+))?$")
+NUM = re.compile(r"^([+-]?)(\d*)(?:\.(\d*))?(?:[eE]([+-]?)(\d+))?$", re.ASCII)
+BL = " \t\n\r"          # JSON white space may be ignored around a number
 UNITS = {"ns": 1, "us": 10 ** 3, "µs": 10 ** 3, "μs": 10 ** 3, "ms": 10 ** 6, "s": 10 ** 9,
          "m": 60 * 10 ** 9, "h": 3600 * 10 ** 9}
 NONE, FREE, SAME = "none", "free", "same"
@@ -41,7 +42,7 @@ def num(t):
     return -int(v) if sg == "-" else int(v)
 
 
-COMP = re.compile(r"(\d*)(?:\.(\d*))?([^\d.]*)")
+COMP = re.compile(r"(\d*)(?:\.(\d*))?([^\d.]*)", re.ASCII)
 
 
 def dur(t):
@@ -98,9 +99,9 @@ def b64(t):
 
 
 def lst(t):
-    if t.strip(" ") == "":
+    if t.strip(BL) == "":
         return []
-    r = [num(p.strip(" ")) for p in t.split("/")]
+    r = [num(p.strip(BL)) for p in t.split("/")]
     if any(x == NONE for x in r):
         return NONE
     return r
@@ -117,9 +118,16 @@ def json_denote(kind, tok):
         return NONE
     if len(tok) >= 2 and tok[0] == '"' and tok[-1] == '"':
         s = tok[1:-1]
-        if not plain(s):
-            return NONE
-        t = s.strip(" ")
+        if not plain(s):            # escapes stand for the characters they name
+            try:
+                s = json.loads(tok)
+            except ValueError:
+                return NONE
+            if not isinstance(s, str):
+                return NONE
+            if re.search(r"\\u[dD][89a-fA-F]", tok):
+                return FREE
+        t = s.strip(BL)
         if kind == "list":
             return lst(s)
         if t == "":
@@ -262,12 +270,34 @@ def listtext(r):
     return r.choice(["/", "/", "/", "/", ","]).join(parts) + r.choice(["", "", "", "", "/"])
 
 
+def esc(r, s):
+    """the same string content written with JSON escapes (plus, rarely, other content / malformed escapes)"""
+    out = []
+    for c in s:
+        k = r.randrange(10)
+        if k < 3 and ord(c) < 0x10000:
+            h = "%04x" % ord(c)
+            out.append("\\u" + (h.upper() if r.randrange(2) else h))
+        elif c == "/" and k < 6:
+            out.append("\\/")
+        else:
+            out.append(c)
+    k = r.randrange(12)
+    extra = {0: "\\n", 1: "\\t", 2: '\\"', 3: "\\\\", 4: "\\b", 5: "\\u00b5s", 6: "\\u0661", 7: "\\ud800", 8: "\\x", 9: "\\u12"}.get(k)
+    if extra is not None:
+        p = r.choice([0, len(out)]) if k < 2 else r.randrange(len(out) + 1)
+        out.insert(p, extra)
+    return "".join(out)
+
+
 def texts(r, ty):
     """a text for wrapper type ty (JSON token for the JSON wrappers)"""
     def tok(inner, bare_ok):
         k = r.randrange(12)
         if k == 0:
             return r.choice(["null", "true", "false", '""', '" "'])
+        if k >= 10:
+            return '"' + esc(r, inner) + '"'
         if k <= 2 and bare_ok:
             s = numtext(r)
             return s if s and " " not in s else '"' + s + '"'
